@@ -81,6 +81,14 @@ def run_case(case):
                 prog.run()
             elif act == "heal":
                 verif_stubs.FLAKY["fail"] = False
+            elif act.startswith("add:"):
+                c = json.loads(act[4:])
+                cls = prog.find_command_class(c["cls"])
+                args = {}
+                for k, v in c["args"].items():
+                    val = dec(v)
+                    args[k] = ListArgument(k, val, 1) if isinstance(val, list) else Argument(k, val, 1)
+                prog.add_command(cls, c["name"], args, lineno=c.get("lineno", 1))
             elif act.startswith("result:"):
                 prog.commands[act.split(":", 1)[1]].result
             step["outcome"] = "return"
